@@ -203,6 +203,11 @@ class Impl:
         self.exec_log = []
         self.import_log = []
         out = dict(route=route)
+        if route.endswith("-text"):
+            # the deprecated string-only form: `name` is the whole definition text, no field list is given
+            fields = None
+            route = route[:-len("-text")]
+            out["route"] = route + "-text"
         if route.endswith("-bytes"):
             # the case is written with one code point (< 256) per byte; deliver real byte strings
             name = name.encode("latin-1")
@@ -797,6 +802,171 @@ def run_cases(ctx, impl, kf, trip, thorough):
     return recs, first, nviol
 
 
+# --------------------------------------------------------------------------------------------------
+# definitions given as TEXT (the deprecated string-only form, parsed by parse_def)
+
+def parse_text(text):
+    """Independent reading of the text format -> (type name, [(type, name)]) or None when the text is malformed.
+    Lines are separated by "\n"; lines of white space only are ignored; the first remaining line, stripped, is the type
+    name; every further line is `<type> <white space> <name>` optionally followed directly by semicolons."""
+    lines = [ln.strip() for ln in text.split("\n")]
+    lines = [ln for ln in lines if ln]
+    if not lines:
+        return None
+    fields = []
+    for ln in lines[1:]:
+        body = ln.rstrip(";")
+        if body != body.rstrip():
+            return None
+        tok = body.split()
+        if len(tok) != 2:
+            return None
+        fields.append((tok[0], tok[1]))
+    return lines[0], fields
+
+
+TEXT_ROUTES = ("ctor-text", "frame-text", "json-text")
+
+
+def render_text_def(rnd, name, fields, plain=False):
+    """a text that parse_text reads back as (name, fields), with random layout"""
+    def ws():
+        return " " if plain else rnd.choice([" ", "  ", "\t", " \t ", "    "])
+
+    def eol():
+        return "\n" if plain else rnd.choice(["\n", "\n", "\r\n", " \n", "\n\n", "\n   \n", "\n\t\n\n"])
+    out = ("" if plain else rnd.choice(["", "", "\n", "  ", "\n\n  "])) + name
+    for t, n in fields:
+        out += eol() + ("" if plain else rnd.choice(["", "    ", "\t"])) + t + ws() + n + ("" if plain else rnd.choice(["", ";", ";", ";;"]))
+    out += "" if plain else rnd.choice(["", "\n", "\n\n", "  ", "\r\n"])
+    return out
+
+
+def text_definitions(ctx, impl, thorough):
+    """yield (text, tag)"""
+    rnd = random.Random(ctx.seed + 2)
+    n = [0]
+
+    def fresh():
+        n[0] += 1
+        return "txt/d%dq" % n[0]
+    # fixed
+    for body, tag in [
+        ("\n string first;\n\n varint second;", "blank-line-between-fields"),
+        ("\n string first;\n \n\t\n varint second;\n\n string third\n", "blank-lines"),
+        ("\n\n string first;\n varint second;", "blank-line-after-name"),
+        ("\n string first;\n varint second;\n\n", "trailing-blank-lines"),
+        ("\r\n string first;\r\n varint second;\r\n", "crlf"),
+        ("\r\n string first;\r\n\r\n varint second;", "crlf-blank"),
+        ("\n\tstring\tfirst\n\tvarint    second;;", "tabs-semicolons"),
+        ("\n string[] xs;\n net.ipaddress ip;\n net.ipaddress[] ips", "list-types"),
+        ("", "name-only"), ("\n", "name-only-newline"), ("\n\n\n", "name-only-blank-lines"),
+        ("\n string a; varint b;", "two-fields-one-line"), ("\n string a varint b", "two-fields-one-line"),
+        ("\n string a ;", "space-before-semicolon"), ("\n string", "type-without-name"), ("\n ;", "semicolon-only"),
+        ("\n string a; # comment", "comment"), ("\n # comment\n string a;", "comment-line"), ("\n // c\n string a;", "comment-line"),
+        ("\n string a;\n string a;", "duplicate"), ("\n string from;\n varint _source;", "keyword-then-reserved"),
+        ("\n string _x;", "underscore"), ("\n nosuchtype a;", "bad-type"), ("\n string[][] a;", "bad-type"), ("\n net a;", "bad-type"),
+        ("\n string a\u00a0;", "nbsp"), ("\n string\u00a0a;", "nbsp-separator"), ("\n string\u2003a", "emspace-separator"),
+        ("\n string\x1ca", "fs-separator"), ("\n string a\x85varint b", "nel-inside"), ("\n string a\u2028varint b", "ls-inside"),
+        ("\n string a\x0bvarint b", "vt-inside"), ("\n string a\x0cvarint b", "ff-inside"), ("\n string a\rvarint b", "cr-inside"),
+        ("\n string f\u0131le;", "casefold"), ("\n str\u0131ng a;", "casefold-type"), ("\n string a=1;", "payload"),
+        ("\n string a):pass;", "payload"), ("\n string a;b", "semicolon-inside"), ("\n string ;a", "semicolon-inside"),
+    ]:
+        yield fresh() + body, "text-" + tag
+    yield "\n" + fresh() + "\n string a;", "text-leading-newline"
+    yield "\n\n  " + fresh() + "  \n string a;\n", "text-leading-blank-lines"
+    yield "   ", "text-whitespace-only"
+    yield "\n\n", "text-newlines-only"
+    yield fresh() + " extra\n string a;", "text-name-with-space"
+    yield "a\n/b" + "\n string a;", "text-name-split"
+    for sym in SYMBOLS:
+        yield fresh() + sym + "\n string a;", "text-sym-type-name"
+        yield fresh() + "\n string fl" + sym + "d;", "text-sym-field-name"
+        yield fresh() + "\n str" + sym + "ing fld;\n varint b;", "text-sym-field-type"
+        yield fresh() + "\n string a;" + sym + "\n varint b;", "text-sym-after-semicolon"
+        yield fresh() + "\n string a;\n" + sym + "\n varint b;", "text-sym-own-line"
+    # every position of a blank line in a 4-field definition, every layout of the blank line
+    base_fields = [("string", "fa"), ("varint", "fb"), ("string[]", "fc"), ("net.ipaddress", "fd")]
+    for blank in ("", " ", "\t", "\r", " \r", ";"):
+        for pos in range(len(base_fields) + 2):
+            lines = [fresh()] + [" %s %s;" % f for f in base_fields]
+            lines.insert(pos, blank)
+            yield "\n".join(lines), "text-blank-line-at-%d" % pos
+    # generated: random definitions (mostly valid, hostile edits) in random layout
+    kws = list(keyword.kwlist)
+    for _ in range(4000 if thorough else 400):
+        fields = []
+        for _i in range(rnd.randint(0, 5)):
+            fn, ft = gen_valid_ident(rnd), rnd.choice(impl.whitelist) + ("[]" if rnd.random() < 0.25 else "")
+            r = rnd.random()
+            if r < 0.06:
+                fn = mutate(rnd, fn, rnd.choice(SYMBOLS), rnd.choice(("prefix", "middle", "suffix")))
+            elif r < 0.1:
+                ft = mutate(rnd, ft, rnd.choice(SYMBOLS), rnd.choice(("prefix", "middle", "suffix")))
+            elif r < 0.14:
+                fn = rnd.choice(kws)
+            elif r < 0.17:
+                fn = rnd.choice(impl.reserved + ["_x"])
+            elif r < 0.2 and fields:
+                fn = rnd.choice(fields)[1]
+            fields.append((ft, fn))
+        name = gen_valid_typename(rnd) + "/" + fresh().replace("/", "_")
+        if rnd.random() < 0.08:
+            name = mutate(rnd, name, rnd.choice(SYMBOLS), rnd.choice(("prefix", "middle", "suffix")))
+        yield render_text_def(rnd, name, fields), "text-random"
+
+
+def text_cases(ctx, impl, kf, trip, thorough, recs):
+    """definitions given as text through the constructor, a descriptor frame and a JSON descriptor line: an accepted one
+    must carry exactly the (type, name) list an independent reading of the text gives (and satisfy everything demanded
+    of the tuple form); malformed text must be refused"""
+    twin_cache = {}
+    k = 0
+    for text, tag in text_definitions(ctx, impl, thorough):
+        parsed = parse_text(text)
+        for route in (TEXT_ROUTES if not tag == "text-random" else (TEXT_ROUTES[k % 3],)):
+            k += 1
+            if parsed is not None:
+                name, fields = parsed
+                viol, finding, info, res = evaluate_text(impl, route, text, name, fields, twin_cache, kf, trip)
+                recs.append(dict(route=route, name=name, fields=[tuple(x) for x in fields], tag=tag, accepted=res["accepted"],
+                                 reached=res["reached_exec"], error=res.get("error"),
+                                 src=res["sources"][0] if res["accepted"] and len(res["sources"]) == 1 else None, **info))
+                if finding:
+                    ctx.known_finding(*finding)
+            else:
+                res = impl.deliver(route, text, None)
+                viol = None
+                if res["accepted"]:
+                    viol = "a malformed definition text was accepted as %r %r" % (res["desc"].name, res["desc"].get_field_tuples())
+                elif not res.get("is_exception", True):
+                    viol = "a malformed definition text ended in %s" % res["error"]
+                elif res["reached_exec"]:
+                    viol = "a malformed definition text reached exec"
+            ctx.count_case((route, tag, abstract(text)))
+            if viol:
+                return ("%s (route %s, definition text %r -> %s)" % (viol, route, text[:200], "accepted" if res["accepted"] else res.get("error")),
+                        dict(kind="text-definition", route=route, text=text, tag=tag, trip=trip, violation=viol))
+    return None
+
+
+def evaluate_text(impl, route, text, name, fields, twin_cache, kf, trip):
+    fields = [tuple(x) for x in fields]
+    res = impl.deliver(route, text, None)
+    bad_import = [m for m in res["imports"] if m not in impl.allowed_modules]
+    viol, finding, info = judge(impl, route, name, fields, res, twin_cache, kf)
+    if viol and res["accepted"] and "does not carry the definition" in viol:
+        d = res["desc"]
+        viol = ("the accepted record type does not have the declared fields: the text declares %r %r, the descriptor has %r %r" % (
+            name, fields, d.name, list(d.get_field_tuples())))
+    if bad_import and not viol:
+        viol = "a module outside the field-type whitelist was imported: %r" % bad_import[:3]
+    if os.path.exists(trip):
+        os.unlink(trip)
+        viol = "text of the definition was executed (tripwire file created)"
+    return viol, finding, info, res
+
+
 def structural_cases(ctx, impl):
     """non-string names / malformed field lists through the untrusted routes"""
     for name, fields in STRUCT_CASES:
@@ -967,6 +1137,8 @@ def python_only_search(ctx, reason):
     try:
         recs, first, nviol = run_cases(ctx, impl, kf, trip, thorough=(ctx.tier == "thorough"))
         if first is None:
+            first = text_cases(ctx, impl, kf, trip, ctx.tier == "thorough", recs)
+        if first is None:
             first = structural_cases(ctx, impl) or avro_schema_cases(ctx, impl) or capture_probe(ctx, impl, kf)
         if first is None:
             _, first = fieldtype_cases(ctx, impl, trip)
@@ -995,7 +1167,10 @@ def run(ctx):
         "position; a keyword-named field next to an invalid / reserved / underscore name at every position; EXHAUSTIVELY every "
         "list of <= 3 field names over {valid, keyword, reserved, underscore, invalid, trailing newline}; all Python keywords as field and type names; template identifiers; reserved and underscore names; every "
         "whitelist entry plain / list / list-of-list / wrong case; duplicates; 10^4-character names; seeded random mostly-"
-        "valid definitions with hostile edits; malformed (non-string) definitions; Avro schemas without embedded "
+        "valid definitions with hostile edits; definitions given as TEXT (the deprecated string-only form: blank lines at every "
+        "position, CRLF, tabs, semicolons, comments, several fields per line, unicode white space, hostile symbols, random layouts) "
+        "through constructor, descriptor frame and JSON line, judged against an independent reading of the text; malformed "
+        "(non-string) definitions; Avro schemas without embedded "
         "definition; plus EXHAUSTIVELY all %d strings of length <= 4 (thorough: 5) over a 10-symbol class-representative alphabet "
         "through is_valid_field_name (both modes) and the type-name check. distinct = distinct (route, definition with "
         "letters/digits abstracted to their class and run lengths capped); every case is non-trivial (it carries a "
@@ -1035,6 +1210,8 @@ def run(ctx):
     impl = Impl()
     try:
         recs, first, nviol = run_cases(ctx, impl, kf, trip, thorough)
+        if first is None:
+            first = text_cases(ctx, impl, kf, trip, thorough, recs)
         if first is None:
             first = structural_cases(ctx, impl) or avro_schema_cases(ctx, impl) or capture_probe(ctx, impl, kf)
         ft_cases, ft_first = fieldtype_cases(ctx, impl, trip)
@@ -1169,6 +1346,27 @@ def replay(obj):
             v = capture_probe(_C(), impl, kf)
             print("replay capture probe ->", v[0] if v else "no violation")
             return 1 if v else 0
+        if kind == "text-definition":
+            text, route = obj["text"], obj["route"]
+            parsed = parse_text(text)
+            trip = obj.get("trip") or trip
+            made = None
+            if not os.path.isdir(os.path.dirname(trip)):
+                made = os.path.dirname(trip)
+                os.makedirs(made)
+            try:
+                if parsed is not None:
+                    viol, finding, info, res = evaluate_text(impl, route, text, parsed[0], parsed[1], {}, kf, trip)
+                else:
+                    res = impl.deliver(route, text, None)
+                    viol = "a malformed definition text was accepted" if res["accepted"] else None
+            finally:
+                if made:
+                    import shutil
+                    shutil.rmtree(made, ignore_errors=True)
+            print("replay: route %s definition text %r -> %s; %s" % (
+                route, text, "accepted" if res["accepted"] else res.get("error"), viol or "property holds"))
+            return 1 if viol else 0
         if kind in ("structural",):
             res = impl.deliver(obj["route"], obj["name"], obj["fields"])
             print("replay structural ->", "accepted" if res["accepted"] else res.get("error"))
